@@ -1,1 +1,26 @@
-(* C12 *)
+(* C12 — symbol classes and emptiness are exact. *)
+From Coq Require Import List NArith.
+Import ListNotations.
+From PFL Require Import Base.ListSet Spec.Cfg Model.Cfg Proofs.CfgSymbols.
+
+Theorem C12_generating : forall (Vr : Type) (E : EqDec Vr) (G : cfg Vr) (A : Vr),
+  In A (generating_vars G) <-> exists w, derives G (V A) w.
+Proof. exact (@generating_vars_spec). Qed.
+Print Assumptions C12_generating.
+
+Theorem C12_nullable : forall (Vr : Type) (E : EqDec Vr) (G : cfg Vr) (A : Vr),
+  In A (nullable_vars G) <-> derives G (V A) [].
+Proof. exact (@nullable_vars_spec). Qed.
+Print Assumptions C12_nullable.
+
+(* exactly the symbols that occur in a sentential form derivable from the start symbol *)
+Theorem C12_reachable : forall (Vr : Type) (E : EqDec Vr) (G : cfg Vr) (s : Vr) (X : symb Vr),
+  g_start G = Some s ->
+  (In X (reachable_symbols G) <-> exists pre post, steps G [V s] (pre ++ X :: post)).
+Proof. exact (@reachable_symbols_spec). Qed.
+Print Assumptions C12_reachable.
+
+Theorem C12_is_empty : forall (Vr : Type) (E : EqDec Vr) (G : cfg Vr),
+  is_empty_cfg G = true <-> forall w, ~ LangG G w.
+Proof. exact (@is_empty_cfg_spec). Qed.
+Print Assumptions C12_is_empty.
